@@ -296,9 +296,67 @@ def replay(lead, inputs, obs):
     return p.returncode != 0, (p.stdout + p.stderr)[-2500:], _drv[0] + ' --sweep'
 
 
+def h_wc_match():
+    """BOUNDED stand-in (strings of at most 5 characters, one wildcard form head*tail): SolverOption::wc_match - a key addresses the wildcard
+    option head*tail when it starts with head and ends with tail: a reported match implies both, and a key head+body+tail with a non-empty
+    body is matched, with exactly that body recorded.  std::string is a char array with length; rfind / find / substr are C models of the
+    library functions (trusted).  Not a proof: the bound is stated in the evidence."""
+    N = 5
+    parts = ['#include "mp_shim.h"\nint vp_one;\n', '''
+#define VP_MAXLEN %d
+typedef struct { char c[VP_MAXLEN + 1]; size_t n; } Str;
+typedef struct { Str first, second; } HeadTail;
+#define NPOS ((size_t)-1)
+Str g_key; HeadTail g_wc; size_t g_nwc;                 /* the key, the wildcard form (head, tail), the number of forms (0 or 1) */
+size_t g_body_pos, g_body_len; _Bool g_body_set;
+/* models of std::string members (C++ standard semantics) */
+static size_t vp_size(Str s) { return s.n; }
+static size_t vp_rfind3(Str s_, Str t_, size_t pos) { const Str *s = &s_, *t = &t_;           /* last i <= pos with s[i, i+|t|) == t */
+  if (t->n > s->n) return NPOS;
+  size_t i = s->n - t->n; if (pos < i) i = pos;
+  for (;; --i) { size_t k = 0; while (k < t->n && s->c[i + k] == t->c[k]) ++k; if (k == t->n) return i; if (i == 0) return NPOS; }
+}
+static size_t vp_find3(Str s_, Str t_, size_t pos) { const Str *s = &s_, *t = &t_;            /* first i >= pos with s[i, i+|t|) == t */
+  if (t->n > s->n) return NPOS;
+  for (size_t i = pos; i + t->n <= s->n; ++i) { size_t k = 0; while (k < t->n && s->c[i + k] == t->c[k]) ++k; if (k == t->n) return i; }
+  return NPOS;
+}
+/* default arguments: rfind(str, pos = npos), find(str, pos = 0) */
+#define VP_SEL3(s, t, pos, ...) (s), (t), (pos)
+#define vp_rfind(...) vp_rfind3(VP_SEL3(__VA_ARGS__, NPOS))
+#define vp_find(...) vp_find3(VP_SEL3(__VA_ARGS__, 0))
+static void vp_substr(Str s_, size_t pos, size_t len) { const Str *s = &s_; __CPROVER_assert(pos <= s->n, "substr: position inside the string (else std::out_of_range)");
+  g_body_pos = pos; g_body_len = len < s->n - pos ? len : s->n - pos; g_body_set = 1; }
+#define VP_LEN(x) g_nwc
+#define VP_AT(x, k) (g_wc)
+static _Bool starts(const Str *s, const Str *t) { if (t->n > s->n) return 0; for (size_t k = 0; k < t->n; ++k) if (s->c[k] != t->c[k]) return 0; return 1; }
+static _Bool ends(const Str *s, const Str *t) { if (t->n > s->n) return 0; for (size_t k = 0; k < t->n; ++k) if (s->c[s->n - t->n + k] != t->c[k]) return 0; return 1; }
+''' % N,
+             Fn(SOLVER, r'bool SolverOption::wc_match\(const std::string &key\)', '_Bool wc_match(Str key)',
+                subst=[(r'key\.(rfind|find)\(', r'vp_\1(key, ', -1), (r'\b(key|wcht\.first|wcht\.second)\.size\(\)', r'vp_size(\1)', -1),
+                       (r'wc_key_last_ = key;', '', 1), (r'wc_body_last_ = key\.substr\(', 'vp_substr(key, ', 1)],
+                label='mp::SolverOption::wc_match', nmatches=1), '''
+void harness(void) { vp_one = 1;
+  { Str a, b, c; g_key = a; g_wc.first = b; g_wc.second = c; g_nwc = nondet_size_t(); }   /* arbitrary strings (statics are zero in plain mode) */
+  __CPROVER_assume(g_key.n <= VP_MAXLEN && g_wc.first.n <= VP_MAXLEN && g_wc.second.n <= VP_MAXLEN && g_nwc <= 1);
+  g_body_set = 0;
+  _Bool m = wc_match(g_key);
+  _Bool st = starts(&g_key, &g_wc.first), en = ends(&g_key, &g_wc.second);
+  if (m) __CPROVER_assert(g_nwc == 1 && st && en, "a key reported as matching head*tail starts with head and ends with tail");
+  if (g_nwc == 1 && st && en && g_key.n >= g_wc.first.n + g_wc.second.n + 1) {
+    __CPROVER_assert(m, "a key head + body + tail with a non-empty body addresses the wildcard option");
+    __CPROVER_assert(g_body_set && g_body_pos == g_wc.first.n && g_body_len == g_key.n - g_wc.first.n - g_wc.second.n, "the part between head and tail is recorded as the wildcard body");
+  }
+  VP_REACH("end");
+}
+''']
+    return Harness('C11.SolverOption.wc_match.bounded', 'C11', parts, plain=True, bounded={'unwind': N + 3, 'reason': 'strings of at most %d characters, at most one wildcard form; std::string::rfind/find/substr are C models' % N},
+                   stubs=['std::string (char array with length; rfind / find / substr modelled in C)'], timeout=600)
+
+
 def harnesses(tier, seed):
     hs = [h_scanner(n) for n in SCANNERS]
-    hs += [h_parse_num('int'), h_parse_num('double'), h_parse_string(), h_pos(), h_parse_options()]
+    hs += [h_parse_num('int'), h_parse_num('double'), h_parse_string(), h_pos(), h_parse_options(), h_wc_match()]
     for h in hs:
         h.replay = replay
     return hs
